@@ -203,6 +203,19 @@ def run(ctx: core.Ctx):
     ev_small = []
     set_switch(2)
     try:
+        # history across OBJECTS: the first 'dynamic' calls of the process are made on sources at or above
+        # the switch (-> single pass); every later source resolves 'dynamic' on its OWN class sizes, whatever
+        # was sampled before with an equal configuration (seed C11-11: a memo keyed by the configuration)
+        for strat_ in ("none", "by_label"):
+            st = next((s_ for s_ in states if s_["cfg"]["method"] == "dynamic" and s_["cfg"]["strat"] == strat_
+                       and len(s_["src"]["pos"]) >= 2 and len(s_["src"]["neg"]) >= 2), None)
+            if st is not None:
+                c = {"method": "dynamic", "strat": strat_, "ratio": list(st["cfg"]["ratio"])}
+                cid = len(cases)
+                cases.append({"kind": "seeded_small", "src": rec_obj(st["src"]), "cfg": c, "np_seed": ctx.seed,
+                              "history": "first dynamic call of the process"})
+                ev_small += run_events(st["src"], c, ids, cid, cid, np_seed=ctx.seed)
+                ctx.extra["dynamic_first_on_source_above_switch"] = True
         for st in states:
             c = {"method": st["cfg"]["method"], "strat": st["cfg"]["strat"], "ratio": list(st["cfg"]["ratio"])}
             script = [list(d) if isinstance(d, tuple) else d for d in st["draws"]]
